@@ -9,6 +9,7 @@ import (
 	"github.com/feichai0017/NoKV/pd/core"
 	pdstorage "github.com/feichai0017/NoKV/pd/storage"
 	"github.com/feichai0017/NoKV/pd/tso"
+	"github.com/feichai0017/NoKV/verifhook"
 	"google.golang.org/grpc/codes"
 	"google.golang.org/grpc/status"
 )
@@ -188,6 +189,7 @@ func (s *Service) persistAllocatorState() error {
 	if s == nil || s.storage == nil {
 		return nil
 	}
+	verifhook.Yield(s, "pd.persist.enter")
 	return s.storage.SaveAllocatorState(s.ids.Current(), s.tso.Current())
 }
 
